@@ -35,14 +35,15 @@ pub fn gen_rw_run(check: &str, seed: u64, tier: Tier) -> Run {
     let p = *w.pick(&PRIMES);
     run.set("p", p as i64);
     let nrules = rule_pool(p).len();
-    let user: Vec<S> = vec![0, 1];
+    // (own stream) a third user slot in a quarter of the runs: classes with three parameters
+    let user: Vec<S> = if Rng::stream(seed, "user3").chance(1, 4) { vec![0, 1, 2] } else { vec![0, 1] };
     let mut binder = 100;
     // start terms
     let nstart = w.range(1, 2);
     let pool = rule_pool(p);
     let mut seeded_rules: Vec<i64> = Vec::new();
     for _ in 0..nstart {
-        let k = w.range(0, 2);
+        let k = w.range(0, user.len());
         let d = w.range(1, if tier == Tier::Quick { 3 } else { 4 });
         let t = if w.chance(2, 3) {
             // an instance of some rule's left side inside a random context: rules will fire
@@ -78,6 +79,25 @@ pub fn gen_rw_run(check: &str, seed: u64, tier: Tier) -> Run {
         };
         let t = Tm::node("add", vec![], vec![(vec![], inner), (vec![], Tm::node("neg", vec![], vec![(vec![], Tm::leaf("var", vec![y]))]))]);
         run.ops.push(Op::new("add").t(t));
+    }
+    {
+        // (own stream) a near-instance of a rule with a repeated variable: the second occurrence is the
+        // first one with permuted slots. With the commutativity rules in the set, some of these
+        // permutations are symmetries (then the rule must fire) and some are not (then it must not).
+        let mut nr = Rng::stream(seed, "near-instance");
+        if nr.chance(1, 7) {
+            let cands = repeated_var_rules(&pool);
+            let ri = *nr.pick(&cands);
+            if let Some(t) = near_instance_of_left(&pool[ri], &mut nr, &user, &mut binder) {
+                seeded_rules.push(ri as i64);
+                for name in ["add-comm", "mul-comm"] {
+                    if nr.chance(2, 3) {
+                        seeded_rules.push(pool.iter().position(|r| r.name == name).unwrap() as i64);
+                    }
+                }
+                run.ops.push(Op::new("add").t(t));
+            }
+        }
     }
     if w.chance(1, 6) {
         // two instances of the eq-conditioned rule in one e-graph: one where the condition holds
@@ -183,6 +203,8 @@ pub fn gen_rw_run(check: &str, seed: u64, tier: Tier) -> Run {
     run.set("oracle_seed", (f.next() >> 1) as i64);
     // unconditional rules built by the crate's own Rewrite::new (own stream: other draws unchanged)
     run.set("crate_rules", Rng::stream(seed, "crate-rules").chance(1, 3) as i64);
+    // naming kind 9: binder slots and repeated free slots of the rules are spelled like class slots too
+    run.set("hint_binders", Rng::stream(seed, "hint-binders").chance(1, 2) as i64);
     run
 }
 
@@ -201,6 +223,7 @@ pub fn effective_budget(run: &Run) -> usize {
 pub fn new_la_egraph(run: &Run) -> EGraph<LA, SimAn> {
     // (central place of every rw-based execution) rules through the crate's own Rewrite::new?
     crate::rules::VIA_CRATE.with(|c| c.set(run.get("crate_rules") != 0));
+    HINT_BINDERS.with(|h| h.set(run.get("hint_binders") != 0));
     let an = SimAn { p: run.get("p").clamp(2, 11) as u32, modify: run.get("modify") != 0 };
     if run.get("subst_method") != 0 {
         EGraph::with_subst_method::<ExtractionSubst>(an)
@@ -219,7 +242,7 @@ pub fn set_naming_hint(s: &Sess<LA, SimAn>) {
             let mut sl: Vec<Slot> = s.eg.slots(*id).iter().copied().collect();
             sl.sort();
             for x in sl {
-                if !v.contains(&x) && v.len() < 6 {
+                if !v.contains(&x) && v.len() < 10 {
                     v.push(x);
                 }
             }
